@@ -1,6 +1,6 @@
 """C18 — Results depend only on explicit arguments, not on process history."""
 
-from .. import aliasmut, argbind, fx, state
+from .. import aliasmut, argbind, dtypes, fx, state
 
 LEVEL = "other"
 TECHNIQUE = "global-state effect lints: enumeration of every read of the mutable global parameter object, cache-key vs builder read-set comparison, memo-site purity, memo identity, precision pinning, escape analysis of closures (no evaluator handed out for later use reads a parameter group); inventory of every write to module-level state with a parameter-dependency analysis of memo keys; package-wide may-alias lint (no in-place update of an array that may share storage with an operand or a cached object)"
@@ -13,7 +13,7 @@ LEVEL_TEXT = (
     "findings)."
 )
 LEVEL_NOTE = "Not decided: single- vs double-precision accuracy; equality with a fresh interpreter as an observation (needs execution)."
-EXPLANATION = "rules FX-GLOBAL-READ, FX-PARAM-SNAPSHOT, FX-PARAM-FORWARD, FX-CACHE-KEY, FX-MEMO, WEAKFORM-MEMO, PRECISION-PIN, FX-LATE-READ, FX-PROCESS-STATE, ALIAS-MUTATION, ARG-NAME-BINDING, ARG-FORWARDED"
+EXPLANATION = "rules FX-GLOBAL-READ, FX-PARAM-SNAPSHOT, FX-PARAM-FORWARD, FX-CACHE-KEY, FX-MEMO, WEAKFORM-MEMO, PRECISION-PIN, PROMOTE-DOUBLE, FX-LATE-READ, FX-PROCESS-STATE, ALIAS-MUTATION, ARG-NAME-BINDING, ARG-FORWARDED"
 ASSUMPTIONS = ["GLOBAL_PARAMETERS is the only mutable module-level configuration object that affects numerical results (DEFAULT_* are read at construction through the same pattern)"]
 
 
@@ -24,6 +24,7 @@ def run(ctx):
     fx.memo_sites(ctx)
     fx.weak_form_memo(ctx)
     fx.precision_pin(ctx)
+    dtypes.promote_double(ctx)
     fx.late_reads(ctx)
     fx.assembler_plumbing(ctx)
     state.process_state(ctx)
